@@ -138,7 +138,8 @@ def check(prop, tier, seed, opts):
     os.makedirs(workdir, exist_ok=True)
     replay_dir = os.path.join(VERIF, "replays", prop)
     os.makedirs(replay_dir, exist_ok=True)
-    ev_path = os.path.join(VERIF, "evidence", f"{prop}.json")
+    ev_dir = "evidence" if os.environ.get("PGMSIM_REPO", "/repo") == "/repo" else os.path.join(".work", "evidence-scratch")
+    ev_path = os.path.join(VERIF, ev_dir, f"{prop}.json")
     os.makedirs(os.path.dirname(ev_path), exist_ok=True)
 
     jobs = []
@@ -148,7 +149,7 @@ def check(prop, tier, seed, opts):
         hashseeds.append(hs)
         items = [{"idx": w * runs + i, "runseed": derive(seed, prop, "run", w, i) % (2**53)} for i in range(runs)]
         job = {"mode": "explore", "prop": prop, "tier": tier, "runs": items, "replay_dir": replay_dir,
-               "shrink": not opts.get("noshrink"), "run_timeout": sc_budget.get("run_timeout", 180),
+               "shrink": not opts.get("noshrink"), "run_timeout": sc_budget.get("run_timeout", 120),
                "shrink_budget": sc_budget.get("shrink_budget", 40)}
         jobs.append((f"w{w:04d}", hs, job))
     print(f"[pgmsim] {prop} {tier}: VERIF_SEED={seed} procs={procs} runs/proc={runs} cpus={ncpu()} repo={os.environ.get('PGMSIM_REPO', '/repo')}", flush=True)
